@@ -300,9 +300,12 @@ def nesting_rule(m, rid, tier):
             named_ends = [k for k in ends if re.search(r"end\s+(?:block\s+data|\w+)\s+\w+\s*$", lines[k], re.I)]
             parens = [k for k, l in enumerate(lines) if "(" in l.split("!")[0] and "'" not in l and '"' not in l]
             muts = []
+            bare_ends = [k for k in ends if re.match(r"\s*end\s*$", lines[k], re.I)]
             for k in ends:
-                muts.append(("END deleted", lines[:k] + lines[k + 1:], k))
-                if not re.match(r"\s*end\s+program", lines[k], re.I):      # (a lone END PROGRAM is an empty main program)
+                # (a bare END further down closes whatever unit is open: deleting an END above it leaves a well-nested file)
+                if not any(b > k for b in bare_ends):
+                    muts.append(("END deleted", lines[:k] + lines[k + 1:], k))
+                if not re.match(r"\s*end(\s+program\b.*)?\s*$", lines[k], re.I):      # (a lone END / END PROGRAM is an empty main program)
                     muts.append(("END repeated", lines[:k + 1] + [lines[k]] + lines[k + 1:], k))
             for k in opens:
                 muts.append(("opening statement deleted", lines[:k] + lines[k + 1:], k))
@@ -813,8 +816,68 @@ def garbage_rule(m, rid, tier):
             if not ok:
                 run.fail("escapes|%s|%s" % (res[1], src[:24]), "parsing %r (%s) ends in %s (%s): neither a tree nor FortranSyntaxError"
                          % (src, std, res[1], (res[2] or "")[:80]))
-    r.floor = 6
+    # generated malformed sources: one token of a sample program deleted, doubled, swapped with another, or a delimiter / keyword
+    # inserted in front of it, or the line cut off behind it (seeded generator: the same sources on every run)
+    rng = random.Random("garbage")
+    pools = [("f2003", PS.VALID), ("f2008", PS.VALID_2008), ("f2008", PS.VALID)]
+    small = [n for n in sorted(PS.VALID) if len(PS.VALID[n]) < 420]
+    count = 160 if tier == "thorough" else 14
+    made = 0
+    while made < count:
+        std, table = pools[made % 3]
+        names = sorted(table) if tier == "thorough" else ([n for n in sorted(table) if n in small] or sorted(table)[:1])
+        name = names[rng.randrange(len(names))]
+        src = mutate_token(table[name], rng)
+        if src is None:
+            continue
+        made += 1
+        res = run.parse(std, src, ignore_comments=bool(made % 2))
+        if res is None:
+            if run.dead:
+                return r
+            continue
+        r.instances += 1
+        ok = res[0] == "tree" or res[1] in ("FortranSyntaxError", "SystemExit")
+        r.ob(ok, "%s mutated: %s" % (name, res[0] if res[0] == "tree" else res[1]) if made % 10 == 0 else None)
+        if not ok:
+            what = re.sub(r"'[^']*'", "'?'", (res[2] or "").split("\n")[0])[:70]
+            run.fail("escapes|%s|%s" % (res[1], what), "parsing a mutated copy of sample %r (%s) ends in %s (%s): neither a tree nor "
+                     "FortranSyntaxError.  Source: %s" % (name, std, res[1], (res[2] or "")[:90], show(src, 40)))
+    r.floor = 12
     return r
+
+
+GARBAGE_TOKEN = re.compile(r"'[^'\n]*'|\"[^\"\n]*\"|[A-Za-z_]\w*|\d+\.?\d*(?:[eEdD][+-]?\d+)?|\*\*|//|::|=>|==|/=|<=|>=|\.\w+\.|\S")
+GARBAGE_INSERTS = ["(", ")", ",", "=", "::", "'", "*", "%", ":", "/", "(/", "[", ";", "1", "x", ".", " end ", " if ", "=>", "&"]
+
+
+def mutate_token(src, rng):
+    lines = src.rstrip("\n").split("\n")
+    k = rng.randrange(len(lines))
+    toks = [(mo.start(), mo.end()) for mo in GARBAGE_TOKEN.finditer(lines[k])]
+    if not toks:
+        return None
+    a, b = toks[rng.randrange(len(toks))]
+    kind = ("del", "dup", "ins", "swap", "trunc")[rng.randrange(5)]
+    line = lines[k]
+    if kind == "del":
+        line = line[:a] + line[b:]
+    elif kind == "dup":
+        line = line[:b] + " " + line[a:b] + line[b:]
+    elif kind == "ins":
+        line = line[:a] + GARBAGE_INSERTS[rng.randrange(len(GARBAGE_INSERTS))] + line[a:]
+    elif kind == "swap":
+        c, d = toks[rng.randrange(len(toks))]
+        if (c, d) == (a, b):
+            return None
+        (a, b), (c, d) = sorted([(a, b), (c, d)])
+        line = line[:a] + line[c:d] + line[b:c] + line[a:b] + line[d:]
+    else:
+        line = line[:b]
+    if line == lines[k]:
+        return None
+    lines[k] = line
+    return "\n".join(lines) + "\n"
 
 
 # =====================================================================================================
